@@ -24,6 +24,7 @@ instance's key (type 1) / device id (type 2) and a zero session; every following
 session id issued in *that* login's reply, a timestamp read between the operation's start and the
 frame's write, and this instance's device id; the frame kinds and count are the model's.
 """
+import asyncio
 import itertools
 import struct
 import time
@@ -61,11 +62,15 @@ VARIANTS = {
     "t1_slow_login": (1, "control_on", {}, [("delay", 45, Ellipsis)], ["login1", "control"], "ok"),
     "t1_slow_reply": (1, "control_off", {}, [Ellipsis, ("delay", 45, Ellipsis)], ["login1", "control"], "ok"),
     "t2_slow_login": (2, "set_position", {}, [("delay", 45, Ellipsis)], ["login2", "set_position"], "ok"),
+    # the device never answers; the caller gives up (cancellation, which is also what asyncio.wait_for / timeout do)
+    "t1_abandoned_login": (1, "control_on", {}, [False], ["login1"], "hang"),
+    "t1_abandoned_reply": (1, "get_state", {}, [Ellipsis, False], ["login1", "get_state1"], "hang"),
+    "t2_abandoned_reply": (2, "set_position", {}, [Ellipsis, False], ["login2", "set_position"], "hang"),
     # a separate-swing thermostat control with swing requested that is aborted after the state read
     "t2_special_aborted": (2, "breeze_swing", {"mode": "heat", "remote_key": "special-coolonly"}, None, ["login2", "get_state2"], "RuntimeError"),
 }
-ALPHA = {1: OPS1 + ["t1_bad_name", "t1_garbage_state", "t1_slow_login", "t1_slow_reply"],
-         2: OPS2 + ["breeze_temp_only", "t2_garbage_state", "t2_unsupported_mode", "t2_special_aborted", "t2_slow_login"]}
+ALPHA = {1: OPS1 + ["t1_bad_name", "t1_garbage_state", "t1_slow_login", "t1_slow_reply", "t1_abandoned_login", "t1_abandoned_reply"],
+         2: OPS2 + ["breeze_temp_only", "t2_garbage_state", "t2_unsupported_mode", "t2_special_aborted", "t2_slow_login", "t2_abandoned_reply"]}
 import os
 
 _SEED = int(os.environ.get("VERIF_SEED", "0") or 0)
@@ -112,6 +117,8 @@ def check_op(res, case, who, kind, did, key, rec, session, frames, wtimes):
     if got != outc:
         res.violation(f"outcome:{name}", case, f"{tag}: expected {outc}, got {got} ({rec['out'][1]!r})", outc, got)
         return False
+    if outc == "hang" and case.get("part") == "inter" and kinds and kinds == shape[:len(kinds)]:
+        shape = kinds  # with another instance's slow device in the same loop the caller may give up at an earlier step
     if kinds != shape:
         res.violation(f"frame-sequence:{name}", case, f"{tag}: wrote {kinds}, the model expects {shape}", shape, kinds)
         return False
@@ -243,20 +250,34 @@ def run_interleaved(ch, spec, res, case):
                     w.device.begin(shape if name in VARIANTS else expected_shape(op, args), script, state2_for(op))
                     rec = {"name": name, "t0": time.time(), "w0": len(w.conn.writes), "s0": len(w.device.sessions)}
                     try:
-                        rec["out"] = ("ok", await call(w.api, op, args))
+                        if outc == "hang":
+                            # the caller bounds its wait, as applications do
+                            try:
+                                rec["out"] = ("ok", await asyncio.wait_for(call(w.api, op, args), 30))
+                            except asyncio.TimeoutError:
+                                rec["out"] = ("hang", None)
+                        else:
+                            rec["out"] = ("ok", await call(w.api, op, args))
                     except Exception as exc:  # noqa: BLE001
                         rec["out"] = ("exc", exc)
                     rec["w1"] = len(w.conn.writes)
                     recs[i].append(rec)
 
             tasks = [loop.create_task(seq(0)), loop.create_task(seq(1))]
+            idle_rounds = 0
             for _ in range(400):
                 loop.settle()
                 for w in worlds:
                     w.conn.poll()
                 pending = [i for i, w in enumerate(worlds) if w.conn.handled < len(w.conn.rx)]
                 if not pending:
-                    break
+                    if all(t.done() for t in tasks) or idle_rounds >= 3:
+                        break
+                    idle_rounds += 1  # nobody has anything to answer: let (virtual) time pass until a caller gives up
+                    loop.advance(31.0)
+                    clk.shift(31.0)
+                    continue
+                idle_rounds = 0
                 k = ch.choose(len(pending), "answer:" + "".join(map(str, pending)))
                 i = pending[k]
                 order.append(i)
@@ -292,8 +313,9 @@ def run_interleaved(ch, spec, res, case):
                 if len(recs[i]) != len(spec[i][1]):
                     res.violation("interleaving-lost-operation", case, f"instance{i} completed {len(recs[i])} of {len(spec[i][1])} operations")
             # no session id may appear on the other connection
-            sa = {s for s in worlds[0].device.sessions if s}
-            sb = {s for s in worlds[1].device.sessions if s}
+            # (the all-zero id is what every login frame carries in its own session field, so it cannot tell connections apart)
+            sa = {s for s in worlds[0].device.sessions if s and s != b"\0\0\0\0"}
+            sb = {s for s in worlds[1].device.sessions if s and s != b"\0\0\0\0"}
             for i, (w, foreign) in enumerate(((worlds[0], sb), (worlds[1], sa))):
                 for fr in w.conn.writes:
                     if fr[8:12] in foreign:
@@ -352,6 +374,8 @@ def jobs(tier, seed):
         js.append({"part": "frozen", "kind": kind, "depth": 3 if tier == "thorough" else 2})
         for zone in ("Asia/Kathmandu", "America/New_York", "Pacific/Kiritimati"):
             js.append({"part": "zoned", "kind": kind, "zone": zone, "depth": 2 if tier == "thorough" else 1})
+    for kind in (1, 2):
+        js.append({"part": "long", "kind": kind, "rounds": 40 if tier == "thorough" else 20})
     specs = pair_specs(tier)
     n = 48 if tier == "thorough" else 16
     for i in range(n):
@@ -373,6 +397,19 @@ def run_job(job):
                     res.case(("zoned", kind, job["zone"], names), nontrivial=checked >= 1)
         finally:
             set_zone("UTC")
+        return res
+    if job["part"] == "long":
+        # one connection lives through hundreds of operations (every kind, in a rotating order)
+        kind = job["kind"]
+        alpha = ALPHA[kind]
+        names = []
+        for r in range(job["rounds"]):
+            names.extend(alpha[r % len(alpha):] + alpha[:r % len(alpha)])
+        case = {"part": "seq", "kind": kind, "names": names}
+        checked = run_sequence(kind, names, res, case, record_states=False)
+        res.traces += 1
+        res.case(("long", kind, len(names)), nontrivial=checked >= 2)
+        res.counters["longest_sequence_on_one_connection"] = max(res.counters["longest_sequence_on_one_connection"], len(names))
         return res
     if job["part"] == "frozen":
         kind = job["kind"]
